@@ -148,9 +148,9 @@ def run_cases(ck: Check, n: int):
             ck.count(f"special.{special}")
         base = Emulsion(drops).get_phasefield(grid).data
         if i >= 0:
-            # (the last two maps: a range below numpy's absolute tolerance 1e-8, and a faint contrast on a large background, range / level = 5e-6 < numpy's
+            # ((1, -1): the upper level is exactly 0 - a supplied level of 0 is a level like any other; the last two maps: a range below numpy's absolute tolerance 1e-8, and a faint contrast on a large background, range / level = 5e-6 < numpy's
             # relative tolerance 1e-5 - both are affine maps of the standard profile like any other)
-            a, b = [(1.0, 0.0), (2.5, -1.0), (4e-9, 2e-9), (1.0, 0.0), (0.3, 4.0), (0.05, 1e4)][(i // 5) % 6] if i % 2 == 0 else rng.choice([(1.0, 0.0), (1.0, 0.0), (2.5, -1.0), (0.3, 4.0)])
+            a, b = [(1.0, 0.0), (2.5, -1.0), (4e-9, 2e-9), (1.0, -1.0), (1.0, 0.0), (0.3, 4.0), (0.05, 1e4)][(i // 5) % 7] if i % 2 == 0 else rng.choice([(1.0, 0.0), (1.0, 0.0), (2.5, -1.0), (0.3, 4.0)])
         field = ScalarField(grid, a * base + b)
         vmin, vmax = b, a + b
         if i >= 0:
